@@ -32,3 +32,64 @@ pub fn crc16_step(state: u16, byte: u8) -> u16 {
     s = if s & 0x8000 != 0 { (s << 1) ^ 0x8005 } else { s << 1 };
     s
 }
+
+// ---------------------------------------------------------------- residual coding (RFC 9639 §9.2.7)
+
+/// Rice "zig-zag" folding of a signed residual into an unsigned code
+pub fn zigzag(r: i64) -> u64 {
+    if r < 0 { (((-(r + 1)) as u64) << 1) | 1 } else { (r as u64) << 1 }
+}
+
+/// inverse of `zigzag`
+pub fn unzigzag(u: u64) -> i64 {
+    if u & 1 == 1 { -((u >> 1) as i64) - 1 } else { (u >> 1) as i64 }
+}
+
+/// partition order `po` is legal for a block of `bs` samples predicted with `order` warm-up samples:
+/// the block divides evenly and every partition is longer than the predictor order allows the first to be
+pub fn part_ok(bs: u32, order: u32, po: u32) -> bool {
+    po <= 15 && bs % (1u32 << po) == 0 && (bs >> po) > order
+}
+
+/// number of residuals in partition `i` (0-based) — only meaningful when `part_ok`
+pub fn part_len(bs: u32, order: u32, po: u32, i: u32) -> u32 {
+    if i == 0 { (bs >> po) - order } else { bs >> po }
+}
+
+// ---------------------------------------------------------------- prediction (RFC 9639 §9.2.5, §9.2.6)
+
+/// coefficients of the fixed predictors, most recent sample first
+pub fn fixed_coeff(order: u32, j: u32) -> i64 {
+    match (order, j) {
+        (1, 0) => 1,
+        (2, 0) => 2,
+        (2, 1) => -1,
+        (3, 0) => 3,
+        (3, 1) => -3,
+        (3, 2) => 1,
+        (4, 0) => 4,
+        (4, 1) => -6,
+        (4, 2) => 4,
+        (4, 3) => -1,
+        _ => 0,
+    }
+}
+
+// ---------------------------------------------------------------- stereo decorrelation (RFC 9639 §4.2)
+
+pub fn side_of(l: i64, r: i64) -> i64 { l - r }
+pub fn mid_of(l: i64, r: i64) -> i64 { (l + r) >> 1 }
+/// left/side -> (left, right)
+pub fn unmix_ls(left: i64, side: i64) -> (i64, i64) { (left, left - side) }
+/// side/right -> (left, right)
+pub fn unmix_sr(side: i64, right: i64) -> (i64, i64) { (side + right, right) }
+/// mid/side -> (left, right)
+pub fn unmix_ms(mid: i64, side: i64) -> (i64, i64) {
+    let m = (mid << 1) | (side & 1);
+    ((m + side) >> 1, (m - side) >> 1)
+}
+
+/// value fits a two's-complement field of `bits` bits (1..=64)
+pub fn fits(v: i64, bits: u32) -> bool {
+    if bits >= 64 { true } else { v >= -(1i64 << (bits - 1)) && v <= (1i64 << (bits - 1)) - 1 }
+}
